@@ -19,7 +19,10 @@ META = ("other",
         "not render are outside its domain); R4 every bare operand is justified by the dialect's precedence and associativity "
         "(left side: higher precedence, or equal and left-associative; right side: higher precedence), BETWEEN bounds by the "
         "dialect's bound grammar, atoms by being self-delimiting in the backend's template IR; R5 raw/transparent kinds (Custom, "
-        "CustomWithExpr, AsEnum on non-Postgres, Unary, Binary) are never left bare outside the reviewed hacks",
+        "CustomWithExpr, AsEnum on non-Postgres, Unary, Binary) are never left bare outside the reviewed hacks; R6 implicit operator "
+        "contexts - every renderer that itself writes an operator next to a whole expression (FIELD-order CASE ladder `expr = v`, "
+        "MySQL NULLS emulation `expr IS NULL`) is found from the token automata, must be a registered site, and its parenthesis "
+        "decision is tabulated and justified like a binary operator's",
         "one obligation per decision-table cell that drops parentheses (cells that keep them are safe by construction)")
 
 QB = "crate::backend::query_builder::QueryBuilder"
@@ -411,6 +414,154 @@ def check_backend(run, f, cfg, adt, dialect):
     run.ob("C05.R1", "%s:table" % dialect, True, "%s: %d decision cells tabulated, %d drop the parentheses" % (dialect, cells, bare_cells), cfg=cfg)
     run.floor("C05.R1", "%s:cells" % dialect, cells, 1500, cfg)
     run.floor("C05.R1", "%s:bare-cells" % dialect, bare_cells, 200, cfg)
+    check_implicit_contexts(run, f, cfg, adt, dialect, tab, sp, spell, domain, delim)
+
+
+# ---- R6: implicit operator contexts ---------------------------------------------------------------------------------------
+
+OP_TOKENS = {"IS", "=", "<", ">", "<=", ">=", "<>", "!=", "AND", "OR", "NOT", "LIKE", "IN", "BETWEEN", "+", "-", "*", "/", "%", "||", "::", "ESCAPE",
+             "<binop>", "<unop>"}
+TABULATED = ("binary_expr", "prepare_simple_expr_common", "prepare_simple_expr")      # decided by R1 / R2 / R4
+REVIEWED_CONTEXTS = {
+    "prepare_logical_chain_oper": "#[doc(hidden)] legacy and_or_where chain (ConditionHolderContents::Chain): its own hand-written parenthesis rule; "
+                                  "conditions of the documented API are Condition trees (C06) rendered through binary_expr",
+}
+IMPLICIT = {
+    # renderer -> (operator the renderer itself puts next to the expression, side of the expression)
+    "prepare_field_order": ("Equal", "left"),
+    "prepare_order_expr": ("Is", "left"),
+}
+
+
+def expr_contexts(f, dialect):
+    """(renderer, previous token, next token) for every place where a whole expression is written next to other tokens,
+    from the token automata of the statement renderers (grammar.Builder)"""
+    import collections
+    from .. import grammar as G
+    from .. import link as L
+    from ._structure import QUERY_PRODUCTIONS
+    out = set()
+    for method, _prod in QUERY_PRODUCTIONS:
+        lk = L.Linker(f, dialect)
+        target = lk.resolve(QB + "::" + method)
+        if target is None:
+            continue
+        t = T.fn_tir(f, target)
+        sinks = [x for x, k in t.sinks.items() if k == "writer"]
+        if not sinks:
+            continue
+        b = G.Builder(f, dialect, method)
+        s, e = b.a.state(), b.a.state()
+        b.fn_fragment(target, sinks[0], s, e, top=True)
+        a = b.a
+        incoming = collections.defaultdict(set)
+        for p, trs in a.tr.items():
+            for sym, ts in trs.items():
+                for t_ in ts:
+                    for q in a.closure([t_]):
+                        incoming[q].add(sym)
+        for p, trs in a.tr.items():
+            for t_ in trs.get("<expr>", ()):
+                info = a.info.get((p, "<expr>", t_)) or {}
+                fn = (info.get("fn") or "?").rsplit("::", 1)[-1]
+                nexts = set()
+                for q in a.closure([t_]):
+                    nexts |= set(a.tr.get(q, {}).keys())
+                    if q == e:
+                        nexts.add("$")
+                for pv in (incoming.get(p) or {"^"}):
+                    for nx in nexts:
+                        out.add((fn, pv, nx, info.get("sp")))
+    return out
+
+
+def check_implicit_contexts(run, f, cfg, adt, dialect, tab, sp, spell, domain, delim):
+    try:
+        ctxs = expr_contexts(f, dialect)
+    except Exception as ex:      # Anchor / Unsupported of the automaton builder
+        run.anchor("C05.R6", "%s:contexts" % dialect, "expression contexts could not be enumerated: %s" % ex, cfg)
+        return
+    sites = {}
+    for fn, pv, nx, spn in ctxs:
+        if fn in TABULATED:
+            continue
+        left_op = nx in OP_TOKENS        # the expression is the LEFT operand of `nx`
+        right_op = pv in OP_TOKENS
+        if not (left_op or right_op):
+            continue
+        if right_op and pv == "=" and not left_op:
+            # `column = <expr>` followed by a clause delimiter: an assignment, the expression extends to the delimiter
+            sites.setdefault((fn, "assignment"), spn)
+            continue
+        sites.setdefault((fn, "operand"), spn)
+    run.floor("C05.R6", "%s:expression-contexts" % dialect, len(ctxs), 100, cfg)
+    for (fn, cls), spn in sorted(sites.items(), key=lambda x: x[0]):
+        if cls == "assignment":
+            run.ob("C05.R6", "%s:context:%s:assignment" % (dialect, fn), True, "%s: %s writes `target = <expr>` followed by a clause delimiter (assignment, no operand position)" % (dialect, fn), sp=spn, cfg=cfg, trivial=True)
+            continue
+        if fn in REVIEWED_CONTEXTS:
+            run.ob("C05.R6", "%s:context:%s" % (dialect, fn), True, "%s: %s puts expressions next to operators: %s" % (dialect, fn, REVIEWED_CONTEXTS[fn]), sp=spn, cfg=cfg)
+            continue
+        if fn not in IMPLICIT:
+            run.ob("C05.R6", "%s:context:%s" % (dialect, fn), False,
+                   "%s: %s writes a whole expression as the operand of an operator it writes itself; no parenthesis decision is known for this site" % (dialect, fn), sp=spn, cfg=cfg)
+            continue
+        opn, side = IMPLICIT[fn]
+        otok = spell.get(opn)
+        olev = level(sp, otok) if otok else None
+        target = f.impl_fn(QB, adt, fn) or (QB + "::" + fn)
+        if olev is None:
+            run.anchor("C05.R6", "%s:context:%s" % (dialect, fn), "operator %s has no spelling / level on this backend" % opn, cfg)
+            continue
+        cells = 0
+        for inner_kind, inner_op in [("Binary", o) for o in domain] + [(k, None) for k in ATOM_KINDS]:
+            inner = mk_inner(inner_kind, inner_op)
+            try:
+                paren, txt = implicit_render(tab, f, target, fn, inner)
+            except (Unsupported, Diverged) as ex:
+                run.anchor("C05.R6", "%s:context:%s" % (dialect, fn), "site outside the tabulated fragment: %s" % ex, cfg)
+                break
+            cells += 1
+            if paren:
+                continue
+            if inner_kind == "Binary":
+                inn = opname(inner_op)
+                ilev = level(sp, spell[inn])
+                ok = ilev is not None and (ilev[0] > olev[0] or (side == "left" and ilev[0] == olev[0] and olev[1] == "left" and ilev[1] == "left"))
+                run.ob("C05.R6", "%s:%s:%s:%s" % (dialect, fn, side, inn), ok,
+                       "%s: %s writes `a %s b` bare as the %s operand of its own `%s`; the dialect groups it first: %s" % (
+                           dialect, fn, spell[inn], side, otok, "yes" if ok else "NO (%r)" % txt), cfg=cfg)
+            else:
+                sh = delim.get(inner_kind, "open")
+                run.ob("C05.R6", "%s:%s:%s:%s" % (dialect, fn, side, inner_kind), sh in ("atom", "paren"),
+                       "%s: %s writes a %s bare as the %s operand of its own `%s`; its rendering is %s" % (dialect, fn, inner_kind, side, otok, sh), cfg=cfg)
+        run.ob("C05.R6", "%s:context:%s" % (dialect, fn), cells > 0, "%s: %s decides parentheses for the operand of its own `%s` (%d cells tabulated)" % (dialect, fn, otok, cells), sp=spn, cfg=cfg)
+
+
+def implicit_render(tab, f, target, fn, inner):
+    """run one of the renderers of IMPLICIT on an OrderExpr whose expression is `inner`; (parenthesised?, text)"""
+    markers = {id(inner): "<E>"}
+    b = tab.builtins(markers)
+    b[QB + "::value_to_string"] = lambda it_, a: "<v>"
+    b[QB + "::prepare_order"] = lambda it_, a: it_.out.append(("sql", " <order>")) or ()
+    it = Interp(f, builtins=b, unknown_call=lambda it_, e_, env, depth: Opaque("call"))
+    it.free_opaque = True
+    some = lambda x: ("__some", x)
+    if fn == "prepare_field_order":
+        oe = {"expr": inner, "order": Var("crate::types::Order::Asc"), "nulls": None}
+        it.call_fn(target, [tab.selfv, oe, ([Opaque("v")],), Opaque("sql")])
+    elif fn == "prepare_order_expr":
+        oe = {"expr": inner, "order": Var("crate::types::Order::Asc"), "nulls": some(Var("crate::types::NullOrdering::Last"))}
+        it.call_fn(target, [tab.selfv, oe, Opaque("sql")])
+    else:
+        raise Unsupported("no driver for " + fn)
+    txt = "".join(t for _, t in it.out if isinstance(t, str))
+    if "<E>" not in txt:
+        raise Unsupported("the expression is not rendered by %s: %r" % (fn, txt))
+    # the operand position is the first rendering of the expression
+    i = txt.index("<E>")
+    paren = txt[:i].rstrip().endswith("(") and txt[i + 3:].lstrip().startswith(")")
+    return paren, txt
 
 
 def op_class(name):
